@@ -758,3 +758,80 @@ def c07_9(run):
     if not n_ok:
         raise Inconclusive('vacuity: no block served')
     run.require_reached(*run.cur.reach)
+
+
+# ----------------------------------------------------------------------------------------------------------------- C07-10
+@obligation('C07', 'C07-10 put_sequencer_block (storage of a finalized block): every piece of THIS block is written exactly once under THIS block\'s hash; the hash is filed under the header\'s height; the stored id list is exactly the ids that have rollup data')
+def c07_10(run):
+    R = re.compile
+    bh = z3.BitVec('this_block_hash', 256)
+
+    def put(name, failing=True):
+        def h(ctx):
+            st = ctx.st
+            st.log.append((name,) + tuple(ctx.ex.deref_val(st, a) for a in ctx.args[1:]))
+            okv = z3.Bool(f'{name}_ok')
+            return [(okv, ok(())), (z3.Not(okv), (lambda s: err()))]
+        return h
+    cfg = {}
+
+    def h_into_parts(ctx):
+        return [(None, cfg['parts']())]
+    names = ['put_block_hash', 'put_rollup_ids', 'put_block_header', 'put_rollups_transactions', 'put_rollups_transactions_proof', 'put_rollup_ids_proof', 'put_upgrade_change_hashes',
+             'put_extended_commit_info', 'put_extended_commit_info_proof']
+    hooks = [(R(rf'(^|::){n}(::<.*>)?$'), put(n)) for n in names] + [
+        (R(r'SequencerBlock::into_parts$'), h_into_parts), (R(r'SequencerBlockHeader::height$'), lambda ctx: [(None, z3.BitVec('header_height', 64))]),
+        (R(r'ExtendedCommitInfoWithProof::(encoded_extended_commit_info|proof)$'), lambda ctx: [(None, B.cell(_tag(Obj('piece', kind='opaque'), 'eci_' + ctx.callee.rsplit('::', 1)[1])))])]
+    sc = {'astria_core::primitive::v1::RollupId': 256, 'primitive::v1::RollupId': 256, 'RollupId': 256, 'sequencerblock::v1::block::Hash': 256, 'block::Hash': 256,
+          'astria_core::sequencerblock::v1::block::Hash': 256, 'tendermint::block::Height': 64}
+    ex = loader.load(['astria-sequencer', 'astria-core'], scalar_types=sc, hooks=hooks, dep_adts=['tendermint'])
+    cands = [n for n in ex.fns if n.endswith('::put_sequencer_block') and 'closure' not in n and 'grpc' in n]
+    if len(cands) != 1:
+        raise Inconclusive(f'grpc StateWriteExt::put_sequencer_block not found: {cands}')
+    run.bound(blocks='0..2 rollups, with / without upgrade change hashes, with / without extended commit info; the nine put_* helpers (key construction + serialisation) are logging oracles that may fail')
+    n_ok = 0
+    for nr in (0, 1, 2):
+        for has_up in (False, True):
+            for has_eci in (False, True):
+                ids = [z3.BitVec(f'rollup_{i}', 256) for i in range(nr)]
+
+                def mk():
+                    rts = M.new_map('IndexMap<RollupId, RollupTransactions>', [(ids[i], _tag(Obj('RollupTransactions', kind='opaque'), f'rollup_txs_{i}')) for i in range(nr)])
+                    return B.struct(ex, 'SequencerBlockParts', block_hash=bh, header=_tag(Obj('SequencerBlockHeader', kind='opaque'), 'header'), rollup_transactions=rts,
+                                    rollup_transactions_proof=_tag(Obj('Proof', kind='opaque'), 'tx_proof'), rollup_ids_proof=_tag(Obj('Proof', kind='opaque'), 'ids_proof'),
+                                    upgrade_change_hashes=M.new_vec('Vec<ChangeHash>', [_tag(Obj('ChangeHash', kind='opaque'), 'uch')] if has_up else []),
+                                    extended_commit_info_with_proof=some(_tag(Obj('ExtendedCommitInfoWithProof', kind='opaque'), 'eci')) if has_eci else none())
+                cfg['parts'] = mk
+                st = ex.start(cands[0], [B.cell(Obj('S', kind='cell')), Obj('SequencerBlock', kind='opaque')])
+                if nr == 2:
+                    st.pc.append(ids[0] != ids[1])
+                for pi, p in enumerate(run.explore(ex, st, allow_havoc=(r'^Arguments::|fmt::',))):
+                    lab = f'[{nr} rollups, upgrade hashes {has_up}, commit info {has_eci}, path {pi}]'
+                    if p.kind != 'return':
+                        run.prove(f'no panic {lab}', p.pc, z3.BoolVal(False), detail=p.info); continue
+                    log = p.log; called = [e[0] for e in log]
+                    run.prove(f'every write names THIS block\'s hash (the height index maps the header\'s height to it) {lab}', p.pc,
+                              z3.And(*[(e[2] == bh if e[0] == 'put_block_hash' else e[1] == bh) for e in log], *[e[1] == z3.BitVec('header_height', 64) for e in log if e[0] == 'put_block_hash']))
+                    run.prove(f'each piece is written at most once {lab}', p.pc, z3.BoolVal(len(called) == len(set(called))))
+                    if p.result.discr != 'Ok':
+                        run.prove(f'an error only when a write failed {lab}', p.pc, z3.Or(*[z3.Not(z3.Bool(f'{n_}_ok')) for n_ in called]) if called else z3.BoolVal(False)); continue
+                    n_ok += 1
+                    want = names[:6] + (['put_upgrade_change_hashes'] if has_up else []) + (['put_extended_commit_info', 'put_extended_commit_info_proof'] if has_eci else [])
+                    tag = lambda v: (ex.deref_val(p, v).attrs.get('ident') if isinstance(ex.deref_val(p, v), Obj) else None)
+                    byname = {e[0]: e for e in log}
+                    c = [z3.BoolVal(sorted(called) == sorted(want))]
+                    c.append(z3.BoolVal(tag(byname['put_block_header'][2]) == 'header' and tag(byname['put_rollups_transactions_proof'][2]) == 'tx_proof' and tag(byname['put_rollup_ids_proof'][2]) == 'ids_proof'))
+                    idl = M.drain_iter(ex, p, ex.deref_val(p, byname['put_rollup_ids'][2])) if isinstance(ex.deref_val(p, byname['put_rollup_ids'][2]), Obj) and ex.deref_val(p, byname['put_rollup_ids'][2]).kind in ('iter', 'mapiter') else None
+                    if idl is None:
+                        raise Inconclusive('put_rollup_ids no longer receives an iterator the harness understands')
+                    idl = [ex.deref_val(p, x) for x in idl]
+                    c.append(z3.BoolVal(len(idl) == nr)); c += [a == b for a, b in zip(idl, ids)]
+                    rtl = M.drain_iter(ex, p, ex.deref_val(p, byname['put_rollups_transactions'][2]))
+                    c.append(z3.BoolVal(len(rtl) == nr))
+                    for i, item in enumerate(rtl[:nr]):
+                        k_, v_ = item if isinstance(item, tuple) else (None, None)
+                        c += [ex.deref_val(p, k_) == ids[i], z3.BoolVal(tag(v_) == f'rollup_txs_{i}')]
+                    run.prove(f'Ok => exactly the expected pieces were written: header, both proofs, the id list = the ids with data (in order), each rollup\'s data under its own id; optional pieces iff present {lab}', p.pc, z3.And(*c))
+    if not n_ok:
+        raise Inconclusive('vacuity')
+    run.require_reached(*run.cur.reach)
